@@ -87,6 +87,17 @@ Fixpoint run (h : list call) (st : gstate) : option gstate :=
   | c :: t => match apply_call st c with Some st' => run t st' | None => None end
   end.
 
+Lemma hist_ok_spec : forall h,
+  hist_ok h <-> (forall a, In (C_SetGlobalKeyMapPrefix a) h -> exists p, In p puncts /\ a = [p]).
+Proof.
+  intros h. unfold hist_ok. rewrite forallb_forall. split.
+  - intros H a Hin. specialize (H _ Hin). destruct a as [|p [|q r]]; try discriminate H.
+    cbn [call_ok] in H. exists p. split; [apply mem_ascii_In; exact H | reflexivity].
+  - intros H c Hc.
+    destruct c as [a|a|a|a|a|a|a|a|a|a|a|a|a|a|a|a|a|a|a| | |a|a|a|a]; try reflexivity.
+    destruct (H a Hc) as [p [Hp E]]. subst a. cbn [call_ok]. apply mem_ascii_In. exact Hp.
+Qed.
+
 Lemma Inv_init : Inv gstate0.
 Proof.
   unfold Inv. cbn.
@@ -111,6 +122,31 @@ Proof.
   rewrite H1, H2, H3, H4, H5, H6, H7, H8.
   rewrite !(rekey_punct p0) by (try exact Hp0; unfold key_suffixes; cbn [In]; auto 10).
   repeat split.
+Qed.
+
+(* the same for an arbitrary new prefix string (used for the characterisation only) *)
+Definition keys_with (pre : str) (st : gstate) : Prop :=
+  g_textK st = pre ++ s"text" /\ g_seqK st = pre ++ s"seq" /\ g_commentK st = pre ++ s"comment" /\
+  g_attrK st = pre ++ s"attr" /\ g_directiveK st = pre ++ s"directive" /\ g_procinstK st = pre ++ s"procinst" /\
+  g_targetK st = pre ++ s"target" /\ g_instK st = pre ++ s"inst".
+
+Lemma keys_step_gen : forall p0 new st,
+  In p0 puncts -> keys_at p0 st -> keys_with new (map_keys (rekey new) st).
+Proof.
+  intros p0 new st Hp0 (H1 & H2 & H3 & H4 & H5 & H6 & H7 & H8).
+  unfold keys_with, map_keys. cbn -[rekey s app].
+  rewrite H1, H2, H3, H4, H5, H6, H7, H8.
+  rewrite !(rekey_punct p0) by (try exact Hp0; unfold key_suffixes; cbn [In]; auto 10).
+  repeat split.
+Qed.
+
+Lemma SetGlobalKeyMapPrefix_inv_char : forall st p0 new,
+  In p0 puncts -> keys_at p0 st ->
+  exists st', set_SetGlobalKeyMapPrefix st new = Some st' /\ keys_with new st'.
+Proof.
+  intros st p0 new Hp0 Hk. exists (map_keys (rekey new) st). split.
+  - rewrite SetGlobalKeyMapPrefix_char, (keys_nonempty p0 st Hk). reflexivity.
+  - exact (keys_step_gen p0 new st Hp0 Hk).
 Qed.
 
 Lemma keys_fix : forall p st, In p puncts -> keys_at p st -> map_keys (rekey [p]) st = st.
@@ -241,4 +277,17 @@ Proof.
   rewrite (keys_nonempty p0 st Hk) in H. injection H as H. subst st1.
   pose proof (keys_step p0 p st Hp0 Hk) as Hk1.
   rewrite (keys_nonempty p _ Hk1). f_equal. exact (keys_fix p _ He Hk1).
+Qed.
+
+(* outside the domain idempotence fails: a two-character prefix grows on the second call *)
+Example keyprefix_not_idempotent_outside_domain :
+  exists st1 st2, apply_call gstate0 (C_SetGlobalKeyMapPrefix (s"ab")) = Some st1 /\
+                  apply_call st1 (C_SetGlobalKeyMapPrefix (s"ab")) = Some st2 /\
+                  g_textK st1 = s"abtext" /\ g_textK st2 = s"abbtext".
+Proof.
+  destruct (apply_call gstate0 (C_SetGlobalKeyMapPrefix (s"ab"))) as [st1|] eqn:E1; [|vm_compute in E1; discriminate E1].
+  destruct (apply_call st1 (C_SetGlobalKeyMapPrefix (s"ab"))) as [st2|] eqn:E2;
+    vm_compute in E1; injection E1 as E1; subst st1; vm_compute in E2; [|discriminate E2].
+  injection E2 as E2. subst st2.
+  eexists. eexists. split; [reflexivity|]. split; [reflexivity|]. split; reflexivity.
 Qed.
